@@ -599,6 +599,15 @@ func execCmpkCmp(a []string) Result {
 				res.Fails = append(res.Fails, PropFail{Sig: "cmp/string-equality", Msg: fmt.Sprintf("stored %q %s %q (case-insensitive=%v): engine %v, text comparison %v", r.s, op, l.text, ci, got, want)})
 			}
 		}
+		// a stored number or boolean is not equal to a string that is not a number: `=` no, `!=` yes (the same value stored
+		// as text — what a block column holding numbers and text is stored as — answers like that, so anything else makes
+		// the answer depend on the layout); a literal in number syntax reaches the kernel as a number (ast.ProcessSingleFilter)
+		if (r.kind == 'i' || r.kind == 'u' || r.kind == 'f' || r.kind == 'b') && (op == "=" || op == "!=") && okRes && !cmpkNumStrRe.MatchString(l.text) &&
+			!(r.kind == 'b' && (strings.EqualFold(l.text, "true") || strings.EqualFold(l.text, "false"))) {
+			if want := op == "!="; got != want {
+				res.Fails = append(res.Fails, PropFail{Sig: "cmp/string-literal-vs-non-string", Msg: fmt.Sprintf("stored %s %s %q: engine %v, but a value that is not a string is not equal to the string", a[1], op, l.text, got)})
+			}
+		}
 		return res
 	case 'b':
 		if r.kind == 'b' && (op == "=" || op == "!=") && okRes {
